@@ -26,6 +26,10 @@ CHECKS = {
    technique="TLA+ reference definition Syslog (well-formedness, fields, UTF-8-safe cut, accounting) evaluated by TLC on every parser call recorded from the real syslog parser over an enumerated space of lines",
    text="The real syslogparser (limits lowered through the code's own variables) parses every line of the enumerated space - all PRI values under three level mappings, first-token framings, token value classes, missing/empty tokens, prefixes of a valid line, message bodies with every tail of multi-byte/invalid/newline symbols around the cut position behind headers below/at/above the record limit - and each call is logged with the record's fields, the Unescaped flag and the deltas of the passed/dropped/overflow counters; TLC validates every event against Syslog!Check: a well-formed line yields exactly its facility, mapped level, six tokens and message (cut at a character boundary and counted as overflow when over-long); every line is counted exactly once with its length; never a panic.",
    note="Well-formed = canonical PRI, version 1, six non-empty tokens, a message part; exact message demanded for structurally valid UTF-8; limits 12/64 instead of 1 MiB (same code path, the limits are variables)."),
+ "C08": dict(cat="model_checking", ref="5.7", engine="framing",
+   technique="TLA+ spec Framing (impl-shaped multiLineReader + reference framer; TLC exhausts all streams, cuts and flush placements) bound to the code by lock-step trace validation of the real reader on the complete bounded space and by an observer spec on the real TCP listener",
+   text="TLC checks on the spec, for EVERY newline-terminated stream over {record-start byte, other byte, newline} up to length 7 (thorough 8) and every sequence of read fragmentations and flushes, that the valid records equal the reference framing when no flush intervenes (FragmentationIndependent), also under any flush placement for single-line streams, and that with flushes every record start is delivered exactly once, in order, with a prefix of its lines. The real multiLineReader (through a tag-guarded accessor) is run lock-step on every (stream, labelling of each byte boundary as none/cut/cut+flush) up to length 5 (thorough 7), also with a buffer small enough to overflow: the bytes read, the records handed to the consumer and both offsets after every step must equal the spec's. The real TCP listener is driven over real TCP with bursts of tiny segments and pauses; an observer spec checks the delivered records against the reference and that flushes stay periodic (at most one per interval).",
+   note="The reader gets the model's record-start test; listener timing is used only as an upper bound on the number of flushes; streams are symbolic (3 byte classes)."),
 }
 NOT_YET = {
 }
